@@ -554,12 +554,12 @@ impl Family for MidSizes {
 struct LargeInContext {
     bigs: Vec<(bool, usize)>, // (binary, message bytes)
 }
-const PRE: [&str; 4] = ["nothing before it", "2 short rows before it", "5 short rows before it", "a 5000-byte row and a short row before it"];
+const PRE: [&str; 6] = ["nothing before it", "2 short rows before it", "5 short rows before it", "a 5000-byte row and a short row before it", "the first row of the second resultset of its response (a short resultset ended by finish_one before it)", "the first row of a resultset behind complete_one(3,4) in the same response"];
 const ENDING: [&str; 4] = ["finish", "finish_one + completed(0,0)", "finish_error", "finish_one + a second short resultset"];
 const NEXT: [&str; 4] = ["PING", "query -> completed(0,0)", "query -> one short row", "query -> ERR"];
 impl LargeInContext {
     fn case(&self, idx: u64) -> (usize, usize, usize, usize) {
-        let d = digits(idx, &[self.bigs.len() as u64, 4, 4, 4]);
+        let d = digits(idx, &[self.bigs.len() as u64, PRE.len() as u64, 4, 4]);
         (d[0] as usize, d[1] as usize, d[2] as usize, d[3] as usize)
     }
 }
@@ -568,7 +568,7 @@ impl Family for LargeInContext {
         "large-messages-in-context".into()
     }
     fn len(&self) -> u64 {
-        self.bigs.len() as u64 * 64
+        self.bigs.len() as u64 * PRE.len() as u64 * 16
     }
     fn max_threads(&self) -> Option<usize> {
         Some(8)
@@ -584,9 +584,14 @@ impl Family for LargeInContext {
         let data_len = cell_for_total(if bin { total - 2 } else { total }).expect("sizes are chosen to be reachable");
         let short = |i: usize| vec![b'a' + (i % 26) as u8; 1 + i % 3];
         let mut want_rows: Vec<Vec<u8>> = Vec::new();
-        let mut p = vec![WOp::Start(cols.clone())];
+        let mut p = match pre {
+            4 => vec![WOp::Start(cols.clone()), WOp::WriteRow(vec![Val::Bytes(short(11))]), WOp::FinishOne, WOp::Start(cols.clone())],
+            5 => vec![WOp::CompleteOne(3, 4), WOp::Start(cols.clone())],
+            _ => vec![WOp::Start(cols.clone())],
+        };
+        let lead = if pre >= 4 { 1 } else { 0 };
         let pre_rows: Vec<Vec<u8>> = match pre {
-            0 => vec![],
+            0 | 4 | 5 => vec![],
             1 => (0..2).map(short).collect(),
             2 => (0..5).map(short).collect(),
             _ => vec![pattern_bytes(5000, 3), short(1)],
@@ -673,6 +678,16 @@ impl Family for LargeInContext {
         let d = decode_all(out, &conv, &s.last_seq, conv.cmds.len(), false).map_err(|e| Violation::new("reply-decode", format!("{}: {}", label, e)))?;
         let cell = |b: &Vec<u8>| if bin { Cell::Bin(BinVal::Bytes(b.clone())) } else { Cell::Text(b.clone()) };
         let r = &d.replies[1];
+        let lead_ok = match (pre, r.first()) {
+            (4, Some(Unit::ResultSet { rows, end: Ok(_), .. })) => rows.len() == 1 && rows[0][0] == cell(&short(11)),
+            (5, Some(Unit::Ok { rows: 3, id: 4, .. })) => true,
+            (4, _) | (5, _) => false,
+            _ => true,
+        };
+        if !lead_ok || r.len() <= lead {
+            return Err(Violation::new("response-start-differs", format!("{}: what precedes the large resultset in its response arrives as {:?}", label, r.first().map(|u| format!("{:?}", u).chars().take(60).collect::<String>()))));
+        }
+        let r = &r[lead..];
         let first_ok = match r.first() {
             Some(Unit::ResultSet { rows, end, .. }) => end.is_err() == (ending == 2) && rows.len() == want_rows.len() && rows.iter().zip(want_rows.iter()).all(|(g, w)| g[0] == cell(w)),
             _ => false,
@@ -714,7 +729,7 @@ pub fn build(quick: bool) -> Check {
     Check {
         id: "C04",
         level: "model_checking",
-        rule: format!("{} large-message scenarios on the real run_on: logical messages of k*(2^24-1)+d bytes (k in {{1{}}}, d in [-6,6]) as a one-cell text row and as a binary row; two-cell rows with the packet limit falling -1..4 bytes into the second cell (inside its 3-byte length prefix, exactly between the cells, in its data); a one-byte cell straddling the limit; three cells each far below the limit; rows of ~70000 / ~16000 small cells (239..241, 1021 bytes; more sizes in thorough) so that the limit falls at varying offsets of a cell; ERR messages and a column name beyond 2^24 bytes; column names of 2^24-35..2^24-19 bytes (thorough 2^24-61..2^24+5) so that the definition's payload passes the packet limit at every offset; exact multiples as the last, never explicitly ended row (finish / drop); exact multiples requested with sequence ids 249..252 (thorough 244..255) so that the packets of the message straddle the wrap of the id counter; each under whole, 1 MiB and 65537-byte transport writes; two-packet messages again with one transient deviation (Interrupted once, a write accepting 1 byte / half) at each large transport write; followed by a small row and a sentinel PING. Plus every cell length 0..70000, and cells of 2^15..2^20+1 bytes alone and after 270 / 1500 small rows. Large messages in context: a row of 2 MiB / 2^24-1 (+-1, x2) bytes, text and binary, preceded in its resultset by nothing / 2 / 5 short rows / a 5000-byte row, its response ended by EOF / a trailing completion / an error / a second resultset, the next command answered by PING's OK / an OK / a short resultset / an ERR (all 64 combinations per size; the packetisation rule is checked on every message of the stream). Oracle: every header length equals the bytes that follow; the message is cut into floor(L/(2^24-1)) maximal packets plus one shorter (possibly empty) packet; consecutive sequence ids; strict decode returns exactly the bytes written. Non-trivial = message of at least 2^24-1 bytes.", n, ",2"),
+        rule: format!("{} large-message scenarios on the real run_on: logical messages of k*(2^24-1)+d bytes (k in {{1{}}}, d in [-6,6]) as a one-cell text row and as a binary row; two-cell rows with the packet limit falling -1..4 bytes into the second cell (inside its 3-byte length prefix, exactly between the cells, in its data); a one-byte cell straddling the limit; three cells each far below the limit; rows of ~70000 / ~16000 small cells (239..241, 1021 bytes; more sizes in thorough) so that the limit falls at varying offsets of a cell; ERR messages and a column name beyond 2^24 bytes; column names of 2^24-35..2^24-19 bytes (thorough 2^24-61..2^24+5) so that the definition's payload passes the packet limit at every offset; exact multiples as the last, never explicitly ended row (finish / drop); exact multiples requested with sequence ids 249..252 (thorough 244..255) so that the packets of the message straddle the wrap of the id counter; each under whole, 1 MiB and 65537-byte transport writes; two-packet messages again with one transient deviation (Interrupted once, a write accepting 1 byte / half) at each large transport write; followed by a small row and a sentinel PING. Plus every cell length 0..70000, and cells of 2^15..2^20+1 bytes alone and after 270 / 1500 small rows. Large messages in context: a row of 2 MiB / 2^24-1 (+-1, x2) bytes, text and binary, preceded in its resultset by nothing / 2 / 5 short rows / a 5000-byte row, or being the first row of a later resultset of its response (behind a short resultset / behind complete_one), its response ended by EOF / a trailing completion / an error / a second resultset, the next command answered by PING's OK / an OK / a short resultset / an ERR (all 96 combinations per size; the packetisation rule is checked on every message of the stream). Oracle: every header length equals the bytes that follow; the message is cut into floor(L/(2^24-1)) maximal packets plus one shorter (possibly empty) packet; consecutive sequence ids; strict decode returns exactly the bytes written. Non-trivial = message of at least 2^24-1 bytes.", n, ",2"),
         assumptions: vec!["message sizes are explored in a window around the packet limit, not exhaustively between 70000 and 2^24-7".into()],
         bounds: json!({"k": 2, "d_window": 6, "scenarios": n}),
         exhaustive: true,
